@@ -1,8 +1,10 @@
 package props
 
 import (
+	"encoding/json"
 	"fmt"
 	"path/filepath"
+	"strings"
 
 	"github.com/cockroachdb/errors"
 
@@ -12,10 +14,24 @@ import (
 
 func init() {
 	core.Register(&core.Check{ID: "C11", Technique: "explicit-state exploration of construct/transport histories on the real code; differential oracle: the accessor vector after hops 1..k equals the one before the first hop",
-		Run: runC11})
+		Run: runC11, Post: postC11})
 }
 
 func runC11(c *core.Ctx, r *core.Result) {
+	if strings.HasPrefix(c.Arg, orderArg) {
+		runOrderWorker(c, r)
+		return
+	}
+	if c.Replay != nil {
+		var rp struct {
+			Order bool `json:"order_pass"`
+			Index int  `json:"term_index"`
+		}
+		if json.Unmarshal(c.Replay, &rp) == nil && rp.Order {
+			orderCheck(c.Tier, r, rp.Index)
+			return
+		}
+	}
 	p, hops := plan{dupDepth: 3, fullDepth: 3, coreDepth: 4, strDepth: 2, pairDepth: 0, alphabet: tm.REGE}, 2
 	if c.Thorough() {
 		p, hops = plan{dupDepth: 3, fullDepth: 4, coreDepth: 5, strDepth: 2, pairDepth: 0, alphabet: tm.REGE}, 3
